@@ -338,10 +338,23 @@ func progB() schedProgram {
 		u0 := c.up("u0", "e1")
 		c.mgr.AddConn(u0)
 		c.mgr.RemoveConn(u0) // leaves a tombstone so that compaction has work
+		// e2 already has one upstream, so a status snapshot of the local node
+		// taken before u3 connects holds a non-empty endpoint map
+		c.mgr.AddConn(c.up("u9", "e2"))
 		yJoin := remoteDelta("nY", "10.0.0.2:7000",
 			gossip.Entry{Key: "proxy_addr", Value: "p-nY", Version: 1},
 			gossip.Entry{Key: "admin_addr", Value: "a-nY", Version: 2},
 			gossip.Entry{Key: "endpoint:e1", Value: "1", Version: 3})
+		type snap struct {
+			n    *cluster.Node
+			then string
+		}
+		var snaps []snap
+		take := func(ns ...*cluster.Node) {
+			for _, n := range ns {
+				snaps = append(snaps, snap{n, descClusterNodeM(n)})
+			}
+		}
 		bodies := []func(){
 			func() { c.opAdd(h, 0, u3) },
 			func() { _ = c.pl.VHandlePacket(yJoin) },
@@ -352,8 +365,16 @@ func progB() schedProgram {
 			},
 			func() {
 				_ = c.mgr.Endpoints()
-				_ = c.cs.Nodes()
-				_, _ = c.cs.LookupEndpoint("e1")
+				// status handlers keep (and serialise) what these calls return
+				// after the lock is released: a snapshot must not change later
+				take(c.cs.Nodes()...)
+				take(c.cs.LocalNode())
+				if n, ok := c.cs.LookupEndpoint("e2"); ok {
+					take(n)
+				}
+				if n, ok := c.cs.Node("nZ"); ok {
+					take(n)
+				}
 				_ = c.gs.Nodes()
 				_ = c.gs.Delta(c.gs.Digest(), true)
 			},
@@ -361,8 +382,14 @@ func progB() schedProgram {
 		check := func(o *vsync.Outcome) []string {
 			var msgs []string
 			msgs = append(msgs, c.quiescent()...)
-			if got := countsStr(c.mgr.Endpoints()); got != "e2=1" {
-				msgs = append(msgs, "registry-wrong: expected {e2=1}, registry holds {"+got+"}")
+			for _, s := range snaps {
+				if now := descClusterNodeM(s.n); now != s.then {
+					msgs = append(msgs, fmt.Sprintf("snapshot-changed-after-return: a node snapshot returned by the routing table read %q when it was taken and reads %q now", s.then, now))
+					break
+				}
+			}
+			if got := countsStr(c.mgr.Endpoints()); got != "e2=2" {
+				msgs = append(msgs, "registry-wrong: expected {e2=2}, registry holds {"+got+"}")
 			}
 			// Y fully delivered -> must be in the routing table with e1
 			if n, ok := c.cs.Node("nY"); !ok || n.Endpoints["e1"] != 1 || n.Status != cluster.NodeStatusActive {
@@ -461,6 +488,50 @@ func progD() schedProgram {
 	}}
 }
 
+// progE: two request handlers selecting on the same endpoint while a third
+// upstream connects. Under the cooperative scheduler this checks that every
+// result is a registered upstream and that the three selections of each
+// thread see each member of a stable set once; in the free-running -race pass
+// it is what exposes a selector that mutates the cursor without exclusion.
+func progE() schedProgram {
+	var last string
+	return schedProgram{Name: "E-two-selectors-and-connect", outcome: &last, Build: func() ([]func(), func(o *vsync.Outcome) []string) {
+		c := newNodeCore()
+		h := &history{}
+		u1, u2, u3 := c.up("u1", "e1"), c.up("u2", "e1"), c.up("u3", "e1")
+		c.mgr.AddConn(u1)
+		c.mgr.AddConn(u2)
+		bodies := []func(){
+			func() { c.opSelect(h, 0, "e1", false); c.opSelect(h, 0, "e1", false) },
+			func() { c.opSelect(h, 1, "e1", false); c.opSelect(h, 1, "e1", false) },
+			func() { c.opAdd(h, 2, u3) },
+		}
+		check := func(o *vsync.Outcome) []string {
+			var msgs []string
+			msgs = append(msgs, c.quiescent()...)
+			if !h.linearisable(func() *specState {
+				return &specState{members: map[string]map[string]bool{"e1": {"u1": true, "u2": true}}, remote: map[string]bool{}}
+			}) {
+				msgs = append(msgs, "select-not-linearisable: "+h.String())
+			}
+			// fairness at quiescence: three members now, any three further
+			// selections return each once
+			seen := map[string]bool{}
+			for i := 0; i < 3; i++ {
+				if u, ok := c.mgr.Select("e1", false); ok && u != nil {
+					seen[u.(*fakeUpstream).name] = true
+				}
+			}
+			if len(seen) != 3 {
+				msgs = append(msgs, fmt.Sprintf("select-unfair-after-concurrency: three selections over three members returned only %v", seen))
+			}
+			last = c.finalState() + " " + selectResults(h)
+			return msgs
+		}
+		return bodies, check
+	}}
+}
+
 func allSchedPrograms() []schedProgram {
-	return []schedProgram{progA(), progB(), progC(), progD()}
+	return []schedProgram{progA(), progB(), progC(), progD(), progE()}
 }
